@@ -130,7 +130,11 @@ def classify(rec):
             return "C05"
         return "C18" if panic else "C08"
     if k == "update":
-        return "C18" if rec.get("res") == "PANIC" else "C06"
+        if rec.get("res") == "PANIC":
+            return "C18"
+        # an adversarial update (malformed operation list, a path proven against another root) accepted or judged
+        # differently is a soundness matter; an honest one belongs to the witness replay property
+        return "C08" if rec.get("malform") else "C06"
     if k == "multi":
         if src == "honest":
             return "C18" if panic else "C07"
@@ -150,9 +154,9 @@ PLANS = {
                 thorough=dict(mc=(3, 8), n=3, maxkeys=8, limit=None, prefixes=[(), (1,), (0, 1, 1, 0, 1, 1)],
                               modes=["committed", "reopen"], mutants=0, multis=12, updates=6, extra_n4=400)),
     "C08": dict(quick=dict(mc=(3, 4), n=3, maxkeys=8, limit=100, prefixes=[(), (0, 1)], modes=["committed"],
-                           mutants=10, multis=3, updates=2),
+                           mutants=10, multis=3, updates=8),
                 thorough=dict(mc=(3, 8), n=3, maxkeys=8, limit=None, prefixes=[(), (1,), (0, 1, 1, 0, 1, 1)],
-                              modes=["committed"], mutants=40, multis=6, updates=4, extra_n4=300)),
+                              modes=["committed"], mutants=40, multis=6, updates=10, extra_n4=300)),
     "C18": dict(quick=dict(mc=(3, 3), n=3, maxkeys=8, limit=100, prefixes=[(), (0, 1)], modes=["committed"],
                            mutants=12, multis=4, updates=4),
                 thorough=dict(mc=(3, 5), n=3, maxkeys=8, limit=None, prefixes=[(), (1,), (0, 1, 1, 0, 1, 1)],
